@@ -21,6 +21,7 @@ var profiles = map[string]Profile{
 	"long":  {Name: "long", Clients: 2, Resources: 3, Stimuli: 14, Unsub: true, Gets: false, Clean: true, LongRids: true, Endgame: true},
 	"access": {Name: "access", Clients: 2, Resources: 3, Stimuli: 22, Unsub: true, Reaccess: true, Tokens: true, Calls: true, Faults: true, Denials: true, Clean: true},
 	"reset": {Name: "reset", Clients: 2, Resources: 4, Stimuli: 22, Refs: true, Collections: true, Unsub: true, Resets: true, Clean: true},
+	"malformed": {Name: "malformed", Clients: 2, Resources: 4, Stimuli: 26, Refs: true, Collections: true, Unsub: true, Calls: true, Malformed: true, Clean: true, Endgame: true},
 	"gets":  {Name: "gets", Clients: 2, Resources: 4, Stimuli: 18, Refs: true, Collections: true, Unsub: true, Gets: true, Faults: true, Clean: true},
 }
 
